@@ -246,6 +246,7 @@ class DatasetOnDisk(GetSetDelAttrMixin, NetCDFOnDisk, AbstractDataset):
         # then normal variables
         for nm in names:
             data[nm] = self[nm].read(indices={dim:dict_indices[dim] for dim in self[nm].dims}, indexing='position')
+            data[nm].attrs.update(self[nm].attrs) # also when the variable is read as a bare scalar
         data.attrs.update(self.attrs) # dataset's metadata
 
         # reorder the axes in the dataset to match input
